@@ -45,7 +45,12 @@ def run_case(spec, ctx):
     df = vines.make_table(t)
     where = {'vine_type': spec['vine_type'], 'truncated': spec['truncated'], 'd': t['d'], 'n': t['n'],
              'pattern': t['pattern'], 'perm': t['perm'], 'sentinel': spec['sentinel']}
-    model, poison = vines.fit(ctx, spec['vine_type'], df, spec['truncated'], spec['sentinel'])
+    past = None
+    if t['seed'] % 3 == 0:
+        from vmon.core import rng_for as _r
+        past = vines.past_table(df, _r(t['seed'], 'past'))
+        where['refitted'] = True
+    model, poison = vines.fit(ctx, spec['vine_type'], df, spec['truncated'], spec['sentinel'], past=past)
     if poison is None:
         exc = model
         if vines.is_refusal(exc):
